@@ -19,13 +19,15 @@ EXPECTED_PROBES = ['fragmented', 'ctl_between_fragments', 'empty_fragment',
                    'nonminimal_len', 'len64', 'reply_and_frames_same_read',
                    'cut_inside_header', 'final_close', 'app_close_mid_stream',
                    'with_deflate', 'after_broken_connection',
-                   'two_objects_interleaved']
+                   'two_objects_interleaved', 'pong_write_failed',
+                   'unread_data_queued_at_failed_write']
 
 
 def plan(tier):
     return [('seeded', 10000 if tier == 'quick' else 150000),
             ('big', 120 if tier == 'quick' else 4000),
-            ('pair', 600 if tier == 'quick' else 20000)]
+            ('pair', 600 if tier == 'quick' else 20000),
+            ('pong_fault', 800 if tier == 'quick' else 30000)]
 
 
 def make_case(family, i, rng, tier):
@@ -41,6 +43,26 @@ def make_case(family, i, rng, tier):
         n = rng.choice([2, 3, 5, 8])
         return {'pair': [a, b],
                 'order': [rng.randrange(2) for _ in range(n)] + [0, 1]}
+    if family == 'pong_fault':
+        # the write of one automatic Pong fails (the peer is gone or the
+        # write is refused): everything that had reached the client's socket
+        # by then is still delivered
+        for _ in range(20):
+            c = make_case('seeded', i, rng, tier)
+            n = sum(1 for e in ST.encode_items(c['items']).expected
+                    if e[0] == 'ping')
+            if n:
+                break
+        c.pop('prelude', None)
+        c.pop('app_close_at', None)
+        c['auto_pong'] = True
+        c['gaps'] = [0]
+        if c.get('seg') == 'bytes':
+            c['seg'] = 'cuts'
+        c['fault_pong'] = {'k': rng.randrange(n) if n else 0,
+                           'kind': rng.choice(['epipe', 'reset', 'exc',
+                                               'timeout', 'enobufs'])}
+        return c
     big = family == 'big'
     items = ST.make_items(rng, 2 if big else 8, big=big)
     case = {'items': items, 'auto_pong': rng.random() < 0.7}
@@ -137,6 +159,12 @@ def build(case):
         for rule in scenario.get('app') or []:
             rule['when'] = dict(rule['when'], attempt=1)
         enc.probes['after_broken_connection'] += 1
+    if case.get('fault_pong'):
+        # sendall #0 is the upgrade request, the application is passive
+        scenario['conns'][-1]['faults'] = [
+            {'op': 'sendall', 'k': case['fault_pong']['k'] + 1,
+             'kind': case['fault_pong']['kind']}]
+        scenario['_ends'] = [e + scenario['_rlen'] for e in enc.expected_ends]
     ncuts = len(scenario['conns'][-1]['server'][1]['cuts'])
     return scenario, enc.expected, enc.probes, \
         ''.join(enc.layout) + '/%d' % ncuts
@@ -148,7 +176,8 @@ def execute(case):
     res = Result()
     scenario, expected, probes, layout = build(case)
     tr = netsim.run(scenario)
-    return _judge(res, case, tr, expected, probes, layout, '')
+    return _judge(res, case, tr, expected, probes, layout, '',
+                  ends=scenario.get('_ends'))
 
 
 def _execute_pair(case):
@@ -169,7 +198,7 @@ def _execute_pair(case):
     return res
 
 
-def _judge(res, case, tr, expected, probes, layout, tag):
+def _judge(res, case, tr, expected, probes, layout, tag, ends=None):
     for k, v in probes.items():
         res.stats['probe:' + k] += v
     res.stats.update(tr.world.stats)
@@ -179,6 +208,21 @@ def _judge(res, case, tr, expected, probes, layout, tag):
         tr.events = oracle.split_attempts(tr.events)[-1]
     got = [oracle.payload_of(e.snap) for e in oracle.msg_events(tr)]
     names = tr.names()
+    marks = tr.world.fault_marks
+    if case.get('fault_pong') and marks and ends is not None:
+        res.stats['probe:pong_write_failed'] += 1
+        arrived = marks[0][6]
+        must = [e for e, end in zip(expected, ends) if end <= arrived]
+        if arrived > marks[0][3]:
+            res.stats['probe:unread_data_queued_at_failed_write'] += 1
+        if got[:len(must)] != must or got != expected[:len(got)]:
+            res.bad('C01/pong_fault/lost_or_wrong',
+                    '%d bytes had arrived (%d read) when a Pong write failed '
+                    '(%s): the %d messages complete in them must be '
+                    'delivered, in order; got %d %s...' % (
+                        arrived, marks[0][3], case['fault_pong']['kind'],
+                        len(must), len(got), _short(got)))
+        expected = got          # judged above; the rest of the oracle stands
     # ---- the property
     if got != expected:
         # classify for the key
